@@ -60,11 +60,18 @@ if rc != 0 or not os.path.exists(res):
     if where and m:
         ck.violation("crash|" + where, "building IR for %s crashed: %s" % (where, m.group(1)[:300]),
                      {"item_and_mode": where, "log": out[-6000:], "source": src or {"dir": where}, "seed": ck.seed})
+        # fallback: build serially and recover per (item, mode), so that what the builder does produce is still validated
+        rc, out2 = sh([exe, "-work", work, "-out", res, "-seed", str(ck.seed), "-tier", ck.tier, "-serial"], timeout=9000, env=env)
     else:
         ck.violation("harness-run", "harness run failed: " + out[-800:], {"log": out[-6000:], "seed": ck.seed}, no_input=True)
-    ck.finish({"evaluations": 1, "distinct_nontrivial": 0, "rule": "n/a", "samples": ["harness run failed"]})
+    if rc != 0 or not os.path.exists(res):
+        ck.finish({"evaluations": 1, "distinct_nontrivial": 0, "rule": "n/a", "samples": ["harness run failed"]})
 data = json.load(open(res))
 cases, groups = data["Cases"], data["Groups"]
+for cr in (data.get("Crashes") or [])[:6]:
+    item = cr.split()[0]
+    ck.violation("crash|" + " ".join(cr.split(":")[0].split()[:2]), "building IR crashed: " + cr[:400],
+                 {"crash": cr, "source": data["Sources"].get(item) or {"dir": item}, "seed": ck.seed})
 ck.log("harness: %d (function, mode) pairs, %d distinct bodies in %d groups, %d instructions, %d skipped over %d instructions"
        % (data["Functions"], len(cases), len(groups), sum(g["Instrs"] for g in groups), data["Skipped"], data["MaxInstrs"]))
 
